@@ -153,6 +153,8 @@ def schoolbook_by_interpretation(chk, v, f, negacyclic):
                     if sgn:
                         want[tuple(sorted([at(A, j), at(B, k)], key=repr))] = sgn
             got = st.read(concrete.lvalue_location(sym.idx(R, I(i_)), {}))
+            if got is None:
+                chk.broken("%s: result[%d] is not a polynomial in the operands for N = %d" % (f.name, i_, nv))
             norm = lambda d: {m: c % (1 << 32) for m, c in d.items() if c % (1 << 32)}
             if norm(got) != norm(want):
                 return "for N = %d, result[%d] = %s" % (nv, i_, concrete.show_poly(got, 6))
